@@ -774,6 +774,9 @@ impl Transformer {
                 let new_height = format!("{}mm", height);
                 new_svg_attrs.insert("width", new_width.as_str());
                 new_svg_attrs.insert("height", new_height.as_str());
+            } else if !(aspect_ratio.is_finite() && aspect_ratio > 0.) {
+                // an extent without width or height (a single point, a horizontal
+                // or vertical line) has no aspect ratio to derive the other dimension from
             } else if orig_height.is_none() {
                 let (width, unit) = split_unit(orig_width.expect("logic"))?;
                 let new_height = format!("{}{}", fstr(width / aspect_ratio), unit);
